@@ -1,5 +1,6 @@
 import Proofs.Arith
 import Proofs.Holding
+import Proofs.Averages
 /-
   C07 — Conversions execute later, at the next graded block's rates, exactly.
   Property theorems only (helper lemmas are in Proofs/).
@@ -85,6 +86,40 @@ theorem executes_at_first_rated_block {P : Params} {c : DB} {b : Block} {avgs : 
       Considered P b.height rates avgs c s' row.entry :=
   block_considers_held hpos hrun htx
 
+/-! ### "averages taken at the last rated height before the executing block" -/
+
+/-- `SelectMostRecentRatesBeforeHeight(h)`, whose height is where the averages are taken, is the
+    greatest rated height strictly below `h`: it is rated, below `h`, and nothing rated lies
+    between it and `h`. -/
+theorem last_rated_height_is_greatest_below (db : DB) (h : Nat) (r : RateRow) (hr : r ∈ db.rates) (hlt : r.height < h) :
+    (db.mostRecentRatesBefore h).2 < h ∧ (∃ r' ∈ db.rates, r'.height = (db.mostRecentRatesBefore h).2) ∧
+      ∀ r' ∈ db.rates, r'.height < h → r'.height ≤ (db.mostRecentRatesBefore h).2 :=
+  mostRecentRatesBefore_spec db h r hr hlt
+
+/-- One iteration of the sync loop prices the block with the averages `GetPegNetRateAverages`
+    gives for THAT height on the committed database, starting from the node's cache — and with
+    nothing else: the block transaction is the function `blockTx` of exactly these averages. -/
+theorem block_priced_with_averages_at_last_rated_height (P : Params) (n : Node) (b : Block) :
+    let c := { n.db with avgTouched := false }
+    let avgs := (getAverages P c n.cache (c.mostRecentRatesBefore b.height).2).2
+    (applyBlock P n b).2 = (match blockTx P c b avgs c with | .ok _ _ => none | .fail e _ => some e) := by
+  unfold applyBlock
+  dsimp only
+  generalize blockTx P _ b _ _ = r
+  cases r <;> rfl
+
+/-- and whenever the node's cache moves, it moves to that height -/
+theorem cache_height_after_block (P : Params) (n : Node) (b : Block) :
+    (applyBlock P n b).1.cache = n.cache ∨
+    (applyBlock P n b).1.cache.height = (({ n.db with avgTouched := false } : DB).mostRecentRatesBefore b.height).2 := by
+  unfold applyBlock
+  dsimp only
+  split <;> (dsimp only; split)
+  · right; exact getAverages_height P _ _ _
+  · left; rfl
+  · right; exact getAverages_height P _ _ _
+  · left; rfl
+
 end Pegnet.C07
 
 #print axioms Pegnet.C07.convert_exact
@@ -93,3 +128,6 @@ end Pegnet.C07
 #print axioms Pegnet.C07.convert_value_nonincreasing
 #print axioms Pegnet.C07.convert_rejects
 #print axioms Pegnet.C07.executes_at_first_rated_block
+#print axioms Pegnet.C07.last_rated_height_is_greatest_below
+#print axioms Pegnet.C07.block_priced_with_averages_at_last_rated_height
+#print axioms Pegnet.C07.cache_height_after_block
